@@ -55,6 +55,8 @@ type vCaseC39 struct {
 	trees []vTree // trees of the snapshots in creation order (index-aligned with ids while nothing is forgotten)
 	sns   []*data.Snapshot
 	last  vTree
+	waste string // class of garbage in the repository that prune would act on ("none" if there is none)
+	nseq  int    // number of regular backups
 }
 
 func vCloneEnvC39(e *vEnv) (*vEnv, error) {
@@ -195,6 +197,9 @@ func (c *vCaseC39) observe(t *rapid.T, st *verifkit.Stats, inv vInvC39) bool {
 	}
 	st.Evals(1)
 	st.Class("inv=" + inv.kind)
+	if inv.locks {
+		st.Class("locking_dryrun@repo:" + c.waste)
+	}
 	if rerr != nil {
 		st.Class("err=" + inv.kind)
 	}
@@ -295,6 +300,210 @@ func (c *vCaseC39) somePath(t *rapid.T, sn *data.Snapshot, label string) (string
 	}
 	p := ps[rapid.IntRange(0, len(ps)-1).Draw(t, label)]
 	return p, tr[p]
+}
+
+// ---------------------------------------------------------------------------
+// raw access to repository files, for both kinds of environment
+
+func vDirC39(tpe backend.FileType) string {
+	switch tpe {
+	case backend.PackFile:
+		return "data"
+	case backend.IndexFile:
+		return "index"
+	case backend.SnapshotFile:
+		return "snapshots"
+	case backend.KeyFile:
+		return "keys"
+	}
+	return "locks"
+}
+
+// vPathC39 is the location of a file in a local repository (packs live in data/<first byte>/).
+func vPathC39(e *vEnv, tpe backend.FileType, name string) string {
+	if tpe == backend.PackFile {
+		return filepath.Join(e.gopts.Repo, "data", name[:2], name)
+	}
+	return filepath.Join(e.gopts.Repo, vDirC39(tpe), name)
+}
+
+func (c *vCaseC39) names(e *vEnv, tpe backend.FileType) []string {
+	if e.store != nil {
+		return e.store.Keys(tpe)
+	}
+	var out []string
+	_ = filepath.Walk(filepath.Join(e.gopts.Repo, vDirC39(tpe)), func(_ string, fi os.FileInfo, err error) error {
+		if err == nil && fi.Mode().IsRegular() {
+			out = append(out, fi.Name())
+		}
+		return nil
+	})
+	sort.Strings(out)
+	return out
+}
+
+func (c *vCaseC39) get(e *vEnv, tpe backend.FileType, name string) []byte {
+	if e.store != nil {
+		b, _ := e.store.Get(tpe, name)
+		return b
+	}
+	b, _ := os.ReadFile(vPathC39(e, tpe, name))
+	return b
+}
+
+func (c *vCaseC39) put(e *vEnv, tpe backend.FileType, name string, b []byte) error {
+	if e.store != nil {
+		e.store.Put(tpe, name, b)
+		return nil
+	}
+	p := vPathC39(e, tpe, name)
+	if err := os.MkdirAll(filepath.Dir(p), 0o700); err != nil {
+		return err
+	}
+	return os.WriteFile(p, b, 0o600)
+}
+
+func (c *vCaseC39) del(e *vEnv, tpe backend.FileType, name string) error {
+	if e.store != nil {
+		e.store.Del(tpe, name)
+		return nil
+	}
+	return os.Remove(vPathC39(e, tpe, name))
+}
+
+func vMinusC39(after, before []string) []string {
+	seen := vSetOfC39(before)
+	var out []string
+	for _, a := range after {
+		if !seen[a] {
+			out = append(out, a)
+		}
+	}
+	return out
+}
+
+func vSetOfC39(l []string) map[string]bool {
+	m := map[string]bool{}
+	for _, x := range l {
+		m[x] = true
+	}
+	return m
+}
+
+// wasteBackup backs up a separate directory with fresh content (no blob is shared with
+// the regular snapshots), so the packs and the index file it writes belong to it alone.
+func (c *vCaseC39) wasteBackup(t *rapid.T, env *vEnv) {
+	dir := c.e.Scratch("waste-")
+	tr := vTree{"w": &vNode{Kind: 'd', Mode: 0o755, Mtime: 1600000000e9}}
+	for i, n := 0, rapid.IntRange(1, 3).Draw(t, "wastefiles"); i < n; i++ {
+		tr[fmt.Sprintf("w/f%d", i)] = &vNode{Kind: 'f', Mode: 0o644, Mtime: 1600000000e9, Seed: 1000 + rapid.Uint64Range(0, 1<<40).Draw(t, "wasteseed"), Len: rapid.IntRange(1, 20000).Draw(t, "wastelen")}
+	}
+	if err := tr.Materialize(dir); err != nil {
+		t.Fatal(err)
+	}
+	if err := env.Backup([]string{dir}, BackupOptions{Tags: data.TagLists{data.TagList{"waste"}}, TimeStamp: "2021-05-01 00:00:00"}); err != nil {
+		t.Fatalf("waste backup: %v", err)
+	}
+}
+
+func (c *vCaseC39) forgetWasteSnapshot(t *rapid.T, before []string) {
+	fresh := vMinusC39(c.names(c.e, backend.SnapshotFile), before)
+	if len(fresh) != 1 {
+		t.Fatalf("waste backup created %d snapshots", len(fresh))
+	}
+	if _, err := c.e.Forget(ForgetOptions{}, PruneOptions{}, fresh[0]); err != nil {
+		t.Fatalf("forget waste snapshot: %v", err)
+	}
+}
+
+// makeWaste leaves garbage of the drawn class in the repository. All classes leave a
+// repository whose snapshots are intact.
+func (c *vCaseC39) makeWaste(t *rapid.T) {
+	e := c.e
+	c.waste = rapid.SampledFrom([]string{"none", "unindexed-pack", "unindexed-pack", "index-removed", "duplicate-blobs", "missing-indexed-pack"}).Draw(t, "waste")
+	packs0 := c.names(e, backend.PackFile)
+	idx0 := c.names(e, backend.IndexFile)
+	sn0 := c.names(e, backend.SnapshotFile)
+	switch c.waste {
+	case "unindexed-pack":
+		// a backup that died after uploading packs and before its index was saved
+		if e.store != nil {
+			probe := e.store.Clone()
+			pe := e.OnStore(probe)
+			probe.StartRecording(vbe.NoFaults())
+			c.wasteBackup(t, pe)
+			log := probe.StopRecording()
+			pe.Release()
+			first, idx := -1, -1
+			for i, op := range log {
+				if !op.Remove && op.Key.Type == backend.PackFile && first < 0 {
+					first = i
+				}
+				if !op.Remove && op.Key.Type == backend.IndexFile && idx < 0 {
+					idx = i
+				}
+			}
+			if first < 0 || idx <= first {
+				t.Fatalf("waste backup log has no pack save before the index save:\n%s", vOpsStringC39(log))
+			}
+			k := rapid.IntRange(first+1, idx).Draw(t, "wastecut")
+			s := probe.StateAt(k)
+			s.DropLocks()
+			e.ReplaceStore(s)
+		} else {
+			ce, err := vCloneEnvC39(e)
+			if err != nil {
+				t.Fatal(err)
+			}
+			c.wasteBackup(t, ce)
+			fresh := vMinusC39(c.names(ce, backend.PackFile), packs0)
+			n := rapid.IntRange(1, len(fresh)).Draw(t, "wastepacks")
+			for _, name := range fresh[:n] {
+				if err := c.put(e, backend.PackFile, name, c.get(ce, backend.PackFile, name)); err != nil {
+					t.Fatal(err)
+				}
+			}
+			ce.Close()
+		}
+	case "index-removed":
+		// the index file of a forgotten backup is gone: its packs are in no index
+		c.wasteBackup(t, e)
+		c.forgetWasteSnapshot(t, sn0)
+		for _, name := range vMinusC39(c.names(e, backend.IndexFile), idx0) {
+			if err := c.del(e, backend.IndexFile, name); err != nil {
+				t.Fatal(err)
+			}
+		}
+	case "duplicate-blobs":
+		// the same tree is backed up again while the index is hidden: every blob is stored twice
+		saved := map[string][]byte{}
+		for _, name := range idx0 {
+			saved[name] = c.get(e, backend.IndexFile, name)
+			if err := c.del(e, backend.IndexFile, name); err != nil {
+				t.Fatal(err)
+			}
+		}
+		bo := BackupOptions{Force: true, Tags: data.TagLists{data.TagList{fmt.Sprintf("n%d", c.nseq-1)}}, TimeStamp: "2021-07-01 00:00:00"}
+		if err := e.Backup([]string{c.src}, bo); err != nil {
+			t.Fatalf("duplicate backup: %v", err)
+		}
+		for name, b := range saved {
+			if err := c.put(e, backend.IndexFile, name, b); err != nil {
+				t.Fatal(err)
+			}
+		}
+	case "missing-indexed-pack":
+		// a pack of a forgotten backup was deleted but is still listed in the index
+		c.wasteBackup(t, e)
+		c.forgetWasteSnapshot(t, sn0)
+		fresh := vMinusC39(c.names(e, backend.PackFile), packs0)
+		if err := c.del(e, backend.PackFile, fresh[rapid.IntRange(0, len(fresh)-1).Draw(t, "wastedel")]); err != nil {
+			t.Fatal(err)
+		}
+	}
+	if n := len(vMinusC39(c.names(e, backend.PackFile), packs0)); c.waste != "none" && n == 0 {
+		t.Fatalf("waste class %s left no additional pack", c.waste)
+	}
 }
 
 func (c *vCaseC39) dryInvocations(t *rapid.T, v2 bool) []vInvC39 {
@@ -444,6 +653,35 @@ func (c *vCaseC39) dryInvocations(t *rapid.T, v2 bool) []vInvC39 {
 			}})
 	}
 
+	// a repository with garbage always gets the LOCKING dry-run variants that plan a prune: these
+	// run on the real backend (no dry-run wrapper), so nothing but lock files may be touched
+	if c.waste != "none" {
+		popts, pdesc := vPruneOptsC39(t, v2, comp)
+		invs = append(invs, vInvC39{kind: "prune", hasWet: true, locks: true, mustSucceed: true,
+			desc: fmt.Sprintf("--dry-run %s no-lock=false (waste %s)", pdesc, c.waste),
+			run: func(env *vEnv, dry bool) (vOut, error) {
+				o := popts
+				o.DryRun = dry
+				g := env.gopts
+				g.Quiet = false
+				g.Verbosity = 2
+				return vCallC39(env, g, func(ctx context.Context, gopts global.Options) error {
+					return runPrune(ctx, o, gopts, gopts.Term)
+				})
+			}})
+		fpopts, fpdesc := vPruneOptsC39(t, v2, comp)
+		victim := c.pickSnap(t, "wfsnap").ID().String()
+		invs = append(invs, vInvC39{kind: "forget", hasWet: true, locks: true, mustSucceed: true,
+			desc: fmt.Sprintf("--dry-run ids %s prune=true (%s) no-lock=false (waste %s)", victim, fpdesc, c.waste),
+			run: func(env *vEnv, dry bool) (vOut, error) {
+				g := env.gopts
+				g.Quiet = false
+				return vCallC39(env, g, func(ctx context.Context, gopts global.Options) error {
+					return runForget(ctx, ForgetOptions{DryRun: dry, Prune: true}, fpopts, gopts, gopts.Term, []string{victim})
+				})
+			}})
+	}
+
 	// repair snapshots --dry-run on the healthy repository
 	{
 		forget := rapid.Bool().Draw(t, "rsforget")
@@ -477,7 +715,7 @@ func (c *vCaseC39) readInvocations(t *rapid.T) []vInvC39 {
 			}})
 	}
 	kinds := []string{"snapshots", "ls", "find", "diff", "stats", "cat", "dump", "restore", "check", "list", "key-list"}
-	nk := rapid.IntRange(5, len(kinds)).Draw(t, "nreads")
+	nk := rapid.IntRange(4, 9).Draw(t, "nreads")
 	perm := rapid.Permutation(vRange(len(kinds))).Draw(t, "reads")
 	for _, ki := range perm[:nk] {
 		switch kinds[ki] {
@@ -641,6 +879,10 @@ func (c *vCaseC39) readInvocations(t *rapid.T) []vInvC39 {
 					_, err := runCheck(ctx, co, gopts, nil, gopts.Term)
 					return err
 				})
+			if c.waste == "missing-indexed-pack" {
+				// check rightly reports the missing pack as an error
+				invs[len(invs)-1].mustSucceed = false
+			}
 		case "list":
 			args := []string{rapid.SampledFrom([]string{"blobs", "packs", "index", "snapshots", "keys", "locks"}).Draw(t, "lstype")}
 			if args[0] == "packs" && rapid.Bool().Draw(t, "lspacksnap") {
@@ -709,6 +951,8 @@ func TestVerifC39DryRunNoLock(t *testing.T) {
 				t.Fatal(err)
 			}
 		}
+		c.nseq = nb
+		c.makeWaste(t)
 		c.sns, err = e.Snapshots()
 		if err != nil || len(c.sns) == 0 {
 			t.Fatalf("snapshots: %v (%d)", err, len(c.sns))
@@ -757,13 +1001,13 @@ func TestVerifC39DryRunNoLock(t *testing.T) {
 		if len(nt) > 0 {
 			key = fmt.Sprintf("vmem=%v v%s %v %s", vmem, version, c.trees, strings.Join(nt, "|"))
 		}
-		st.Case(key, fmt.Sprintf("vmem=%v", vmem), "version="+version, fmt.Sprintf("unused_data=%v", unused), fmt.Sprintf("nontrivial=%v", key != ""))
+		st.Case(key, fmt.Sprintf("vmem=%v", vmem), "version="+version, "repo:"+c.waste, fmt.Sprintf("repo:%s/vmem=%v", c.waste, vmem), fmt.Sprintf("unused_data=%v", unused), fmt.Sprintf("nontrivial=%v", key != ""))
 		if st.WantSample() {
 			var ds []string
 			for _, inv := range invs {
 				ds = append(ds, inv.kind+": "+inv.desc)
 			}
-			st.Sample(map[string]any{"vmem": vmem, "version": version, "snapshots": len(c.sns), "invocations": ds, "wet_variant_changes_repository": nt})
+			st.Sample(map[string]any{"vmem": vmem, "version": version, "waste": c.waste, "snapshots": len(c.sns), "invocations": ds, "wet_variant_changes_repository": nt})
 		}
 	})
 }
